@@ -355,7 +355,8 @@ META = {
    outside_claim='re-adding an already queued message / removal (erase from the middle of the heap), queues of more than 3 (thorough: 4) messages, 2^32 wrap of the virtual clock, message reload, BusHandler poll trigger',
    assumptions=COMMON_ASSUME + ['queue vector is heap-ordered before the step (std::priority_queue representation invariant)', 'virtual times within [clock-30, clock+priority]'],
  ),
- 'C08': dict(claimed=False, na_reason='tbd', level_text='tbd', level_note='tbd', outside_claim='tbd', assumptions=COMMON_ASSUME),
+ 'C08': dict(claimed=False, na_reason='MessageMap::find was attempted with partially constructed Message/MessageMap objects and hand-set vtable pointers (harness/C08_find.cpp: real createKey x2, find, getFirstAvailable, checkId against a linear-scan reference): it translates and runs, but every Message* comes out of a std::map node / std::vector<Message*> as a symbolic pointer, so m_id.size() is not a constant at any of the ~100 checkId call sites and each unwinds to the bound; no verdict within 280 s even for ONE definition with an empty ID. Same blow-up class as getAnswer (DESIGN 10.5). Not claimed; seed C08-chain-suffix-unchecked is missed.',
+   level_text='n/a', level_note='n/a', outside_claim='n/a', assumptions=COMMON_ASSUME),
  'C09': dict(claimed=False, na_reason='Message::prepareMaster / decodeLastData need complete Message and DataFieldSet objects (std::map<string,...> construction, beyond this encoding, DESIGN 8.2). The chained-message clause was attempted with a partially constructed ChainedMessage and a hand-set vtable pointer (harness/C09_chain.cpp: real storeLastData -> checkId -> combineLastParts over all arrival orders): the code translates and runs (30 k steps without vector growth), but combineLastParts fills LOCAL SymbolStrings by push_back in loops whose trip count is read from stored data, so every push_back site forks into the growth path; no verdict within 280 s per job even with the fixed-capacity growth model (DESIGN section 19). Not claimed.',
    level_text='n/a', level_note='n/a', outside_claim='n/a', assumptions=COMMON_ASSUME),
  'C13': dict(
